@@ -4161,6 +4161,32 @@ fn propagate_sctp_close_reason(inner: &PeerConnectionInner) {
     }
 }
 
+/// The transport loops (DTLS / SCTP / RTCP) of an established connection ended on
+/// their own - the peer aborted or shut down the SCTP association, the DTLS runner
+/// stopped - while ICE is still up, so none of the other monitoring branches
+/// fires. Report it: a reason, and a state other than `Connected`. A local
+/// `close()` also ends the loops; it has then already published its own reason
+/// and publishes `Closed` itself, which is left alone.
+fn report_transport_loops_ended(inner: &PeerConnectionInner) {
+    propagate_sctp_close_reason(inner);
+    let _ = inner.disconnect_reason.send_if_modified(|cur| {
+        if cur.is_none() {
+            *cur = Some(DisconnectReason::Unknown("transport loops ended".into()));
+            true
+        } else {
+            false
+        }
+    });
+    let _ = inner.peer_state.send_if_modified(|state| {
+        if *state == PeerConnectionState::Connected {
+            *state = PeerConnectionState::Disconnected;
+            true
+        } else {
+            false
+        }
+    });
+}
+
 async fn handle_connected_state_no_dtls(
     inner_weak: &std::sync::Weak<PeerConnectionInner>,
     ice_state_rx: &mut watch::Receiver<crate::transports::ice::IceTransportState>,
@@ -4200,7 +4226,7 @@ async fn handle_connected_state_no_dtls(
                     tokio::select! {
                         _ = &mut rtcp_loop => {
                             if let Some(inner) = inner_weak.upgrade() {
-                                propagate_sctp_close_reason(&inner);
+                                report_transport_loops_ended(&inner);
                             }
                             break;
                         }
@@ -4316,7 +4342,7 @@ async fn handle_connected_state(
                                 tokio::select! {
                                     _ = &mut rtcp_loop => {
                                         if let Some(inner) = inner_weak.upgrade() {
-                                            propagate_sctp_close_reason(&inner);
+                                            report_transport_loops_ended(&inner);
                                         }
                                         break;
                                     }
@@ -4403,7 +4429,7 @@ async fn handle_connected_state(
                                 tokio::select! {
                                     _ = &mut rtcp_loop => {
                                         if let Some(inner) = inner_weak.upgrade() {
-                                            propagate_sctp_close_reason(&inner);
+                                            report_transport_loops_ended(&inner);
                                         }
                                         break;
                                     }
